@@ -23,6 +23,27 @@ type Op struct {
 	// LoadString when empty).  Always empty for loadfile/loadfilectx.
 	Ctx string `json:"ctx"`
 	Loc string `json:"loc"`
+	// Entry "call": the function Loc = "<ID>/<k>" (defined by file <ID>, body
+	// (load-file Defs[k])) is called from a top-level source located at Ctx.
+	//
+	// MUTATIONS of the configuration or of the layout between loads (histories
+	// on one library value and one runtime): Entry "setroot" (Arg = the new
+	// root spelling: RootDir reassigned / a new os.Root opened and assigned to
+	// the same FSLibrary), "chdir" (Path = new working directory), "retarget"
+	// (Path = a symbolic link, Arg = its new target; atomic rename), "replace"
+	// (Path = a file, Arg = its new id: new content), "remove" (Path = a file
+	// or link), "create-file" (Path, Arg = id), "create-link" (Path, Arg =
+	// target).  Paths are relative to the sandbox base like Node.Path.
+	Path string `json:"path,omitempty"`
+	Arg  string `json:"arg,omitempty"`
+}
+
+func isMutation(entry string) bool {
+	switch entry {
+	case "setroot", "chdir", "retarget", "replace", "remove", "create-file", "create-link":
+		return true
+	}
+	return false
 }
 
 // Case is one sandbox plus the loads attempted in it.
@@ -34,6 +55,11 @@ type Case struct {
 	Mode string  `json:"mode"`
 	SB   Sandbox `json:"sandbox"`
 	Ops  []Op    `json:"ops"`
+	// Cmd (mode "cli"): "" = `elps run` (-e expressions, file arguments);
+	// "repl" = expressions fed to `elps repl --batch --root-dir` on stdin;
+	// "debug" = file arguments run by `elps debug --stdio --root-dir` under a
+	// scripted DAP client (initialize, launch, configurationDone, disconnect).
+	Cmd string `json:"cmd,omitempty"`
 }
 
 const genBase = "/B"
@@ -53,6 +79,9 @@ type builder struct {
 	cwdReal  string
 	realRoot string // "" when the root does not resolve
 	rootAbs  string // fs modes: absolute named root
+
+	history bool    // histories: mutations between the loads
+	flipped []*Node // files whose inside/outside status the last mutation changed
 }
 
 func (b *builder) add(n *Node) *Node {
@@ -303,6 +332,10 @@ func (b *builder) genLoc(fromDir string, minIdx int, absPct int) string {
 		}
 		return s
 	}
+	if len(b.flipped) > 0 && b.pct("flipped", 40) {
+		// a file that the last mutation moved into or out of the root
+		pool = b.flipped
+	}
 	var named string
 	if len(pool) > 0 {
 		n := rapid.SampledFrom(pool).Draw(b.t, "target")
@@ -538,7 +571,18 @@ func (b *builder) chooseRootAndCwd() {
 	}
 	BR := basePlaceholder + "/" + R
 	spell := BR
-	switch k := rapid.IntRange(0, 19).Draw(b.t, "rootkind"); {
+	k := rapid.IntRange(0, 19).Draw(b.t, "rootkind")
+	if b.history {
+		// roots whose meaning can change: a symbolic link (retargeted later),
+		// a spelling relative to the working directory (changed later)
+		switch h := rapid.IntRange(0, 9).Draw(b.t, "histroot"); {
+		case h >= 7:
+			k = 13
+		case h >= 5:
+			k = 11
+		}
+	}
+	switch {
 	case k < 9:
 	case k < 11:
 		spell = rapid.SampledFrom([]string{BR + "/", BR + "/.", basePlaceholder + "/outside/../" + R,
@@ -566,7 +610,13 @@ func (b *builder) chooseRootAndCwd() {
 	default:
 		spell = basePlaceholder + "/no-such-root"
 	}
+	b.setRoot(spell)
+}
+
+// setRoot records a configured root spelling and what it resolves to NOW.
+func (b *builder) setRoot(spell string) {
 	b.root = spell
+	b.realRoot = ""
 	s := subst(spell, genBase)
 	if b.mode == "osroot" || b.mode == "cli" {
 		if !isAbs(s) {
@@ -577,6 +627,19 @@ func (b *builder) chooseRootAndCwd() {
 	}
 	if r := b.m.resolve(b.cwdReal, s); r.Err == "" && r.Kind == "dir" {
 		b.realRoot = r.Path
+		if b.history && b.mode == "osroot" {
+			// an os.Root keeps the DIRECTORY it opened, whatever its name
+			// comes to mean afterwards
+			b.rootAbs = r.Path
+		}
+	}
+}
+
+// refreshRoot re-resolves the configured root after a mutation: the path
+// library resolves RootDir at every load, an opened os.Root does not move.
+func (b *builder) refreshRoot() {
+	if b.mode == "rfs" {
+		b.setRoot(b.root)
 	}
 }
 
@@ -603,6 +666,68 @@ func (b *builder) buildLoads() {
 			n.Loads = append(n.Loads, b.genLoc(parentOf(b.m.abs(n)), b.fileIndex(n), 22))
 		}
 	}
+	// functions whose body is a load-file: the loading file is the file the
+	// call expression is WRITTEN in, not the file (of another directory) that
+	// calls the function
+	for _, n := range b.nodes {
+		if n.Kind != "file" || !b.pct("hasdefs", 30) {
+			continue
+		}
+		k := rapid.SampledFrom([]int{1, 1, 1, 2}).Draw(b.t, "ndefs")
+		for i := 0; i < k; i++ {
+			n.Defs = append(n.Defs, b.genLoc(parentOf(b.m.abs(n)), b.fileIndex(n), 8))
+		}
+	}
+	for _, n := range b.nodes {
+		if n.Kind != "file" || !b.pct("hascalls", 30) {
+			continue
+		}
+		fn, d := b.pickFunction(parentOf(b.m.abs(n)), b.fileIndex(n))
+		if d == nil {
+			continue
+		}
+		if b.pct("loaddefiner", 70) {
+			// make sure the function is defined when it is called
+			to := b.m.abs(d)
+			if b.pct("usealias", 20) {
+				to = b.alias(to)
+			}
+			n.Loads = append(n.Loads, strings.Join(relSpell(parentOf(b.m.abs(n)), to), "/"))
+		}
+		n.Calls = append(n.Calls, fn)
+	}
+}
+
+// pickFunction draws a function "<ID>/<k>", preferring a definer in another
+// directory than fromDir (decoy files of the same names sit in both) and,
+// to keep load graphs mostly acyclic, a definer after position minIdx.
+func (b *builder) pickFunction(fromDir string, minIdx int) (string, *Node) {
+	var other, later, any []*Node
+	for _, d := range b.nodes {
+		if d.Kind != "file" || len(d.Defs) == 0 {
+			continue
+		}
+		any = append(any, d)
+		if parentOf(b.m.abs(d)) != fromDir {
+			other = append(other, d)
+			if b.fileIndex(d) > minIdx {
+				later = append(later, d)
+			}
+		}
+	}
+	pool := any
+	switch {
+	case len(later) > 0 && b.pct("fnlater", 70):
+		pool = later
+	case len(other) > 0 && b.pct("fnother", 85):
+		pool = other
+	}
+	if len(pool) == 0 {
+		return "", nil
+	}
+	d := rapid.SampledFrom(pool).Draw(b.t, "definer")
+	k := rapid.IntRange(0, len(d.Defs)-1).Draw(b.t, "fnidx")
+	return fmt.Sprintf("%s/%d", d.ID, k), d
 }
 
 // genCtx draws the location of a loading file and returns it together with
@@ -619,6 +744,16 @@ func (b *builder) genCtx() (ctx string, fromDir string) {
 	var pool []*Node
 	if b.mode != "rfs" {
 		pool = fs.inside
+		if out := append(append([]*Node{}, fs.outside...), fs.sibling...); len(out) > 0 && b.pct("ctxoutside", 18) {
+			// a loading file that is not in the file system
+			pool = out
+		}
+		if b.pct("ctxnowhere", 6) || len(pool) == 0 {
+			// ... or nowhere at all: its relative loads name files that exist
+			// at the top of the file system
+			dir := rapid.SampledFrom([]string{"..", "../x", "../..", "/..", "/../x", "nodir", "sub/../.."}).Draw(b.t, "nowheredir")
+			return dir + "/" + rapid.SampledFrom(fileNames).Draw(b.t, "nowherefile"), top
+		}
 	} else if b.pct("ctxinside", 75) {
 		pool = fs.inside
 	} else {
@@ -635,31 +770,106 @@ func (b *builder) genCtx() (ctx string, fromDir string) {
 		real = fromDir + "/ghost.lisp"
 	}
 	if b.mode != "rfs" {
-		return strings.Join(relSpell(b.realRoot, real), "/"), fromDir
+		return b.fsCtx(real), fromDir
 	}
-	switch k := rapid.IntRange(0, 9).Draw(b.t, "ctxspell"); {
+	switch k := rapid.IntRange(0, 11).Draw(b.t, "ctxspell"); {
 	case k < 6:
 		return toPlaceholder(real), fromDir
 	case k < 8:
 		return toPlaceholder(b.alias(real)), fromDir
-	default:
+	case k < 10:
 		return strings.Join(relSpell(b.cwdReal, real), "/"), fromDir
+	case k < 11:
+		// the same file through dot segments, doubled separators, X/.. detours
+		return basePlaceholder + "/" + strings.Join(b.decorate(comps(real)[1:], false), "/"), fromDir
+	default:
+		return strings.Join(b.decorate(relSpell(b.cwdReal, real), true), "/"), fromDir
 	}
 }
 
-func (b *builder) buildOps() []Op {
-	n := rapid.IntRange(1, 8).Draw(b.t, "nops")
-	top := b.cwdReal
-	if b.mode != "rfs" {
-		top = b.realRoot
-		if top == "" {
-			top = genBase
-		}
+// fsCtx spells the location of a loading file for the fs.FS-backed library:
+// the clean unrooted path the library itself reports, and every other way a
+// host can name the same file (or a file that is not in the file system).
+func (b *builder) fsCtx(real string) string {
+	top := b.realRoot
+	if top == "" {
+		top = genBase
 	}
+	clean := relSpell(top, real)
+	j := func(p []string) string { return strings.Join(p, "/") }
+	switch k := rapid.IntRange(0, 19).Draw(b.t, "fsctxspell"); {
+	case k < 6:
+		return j(clean)
+	case k < 10:
+		return "/" + j(clean) // rooted: the prefix the library strips from any location
+	case k < 12:
+		return "./" + j(clean)
+	case k < 15:
+		return j(b.decorate(clean, true))
+	case k < 17:
+		return "/" + j(b.decorate(clean, false))
+	case k < 18:
+		return toPlaceholder(real) // the file's absolute path on the host
+	case k < 19:
+		// out of the file system and back in by the root's own name
+		return "../" + lastOf(top) + "/" + j(clean)
+	default:
+		return j(clean[:len(clean)-1]) + "//" + clean[len(clean)-1]
+	}
+}
+
+func (b *builder) top() string {
+	if b.mode != "rfs" {
+		if b.realRoot == "" {
+			return genBase
+		}
+		return b.realRoot
+	}
+	return b.cwdReal
+}
+
+// callOps draws a call of a load-file FUNCTION from the top level (from a
+// source located in some other directory), mostly preceded by a load of the
+// file that defines it.
+func (b *builder) callOps() []Op {
+	fn, d := b.pickFunction("", 0)
+	if d == nil {
+		return nil
+	}
+	var ops []Op
+	if b.pct("loaddefiner", 75) {
+		var loc string
+		if b.mode == "rfs" {
+			loc = toPlaceholder(b.m.abs(d))
+		} else {
+			loc = strings.Join(relSpell(b.top(), b.m.abs(d)), "/")
+		}
+		e := "lisp"
+		if b.mode == "cli" {
+			e = "expr"
+		}
+		ops = append(ops, Op{Entry: e, Loc: loc})
+	}
+	op := Op{Entry: "call", Loc: fn}
+	if b.mode != "cli" && b.pct("callctx", 50) {
+		op.Ctx, _ = b.genCtx()
+	}
+	return append(ops, op)
+}
+
+// loadOps draws n load attempts against the CURRENT state of the builder.
+func (b *builder) loadOps(n int) []Op {
+	top := b.top()
 	var ops []Op
 	if b.mode == "cli" {
 		files := 0
 		for i := 0; i < n; i++ {
+			if b.pct("clicall", 12) {
+				if c := b.callOps(); c != nil {
+					ops = append(ops, c...)
+					continue
+				}
+			}
 			op := Op{Entry: "expr"}
 			if files < 2 && b.pct("clifile", 25) {
 				op.Entry = "file"
@@ -672,14 +882,20 @@ func (b *builder) buildOps() []Op {
 	}
 	for i := 0; i < n; i++ {
 		var op Op
-		switch k := rapid.IntRange(0, 19).Draw(b.t, "entry"); {
+		switch k := rapid.IntRange(0, 21).Draw(b.t, "entry"); {
 		case k < 9:
 			op.Entry = "lib"
 		case k < 12:
 			op.Entry = "loadfile"
 		case k < 13:
 			op.Entry = "loadfilectx"
+		case k < 20:
+			op.Entry = "lisp"
 		default:
+			if c := b.callOps(); c != nil {
+				ops = append(ops, c...)
+				continue
+			}
 			op.Entry = "lisp"
 		}
 		from := top
@@ -699,20 +915,248 @@ func (b *builder) buildOps() []Op {
 	return ops
 }
 
-func genCase(mode string) *rapid.Generator[Case] {
+func (b *builder) buildOps() []Op {
+	return b.loadOps(rapid.IntRange(1, 8).Draw(b.t, "nops"))
+}
+
+// ---------- histories ----------
+
+func (b *builder) insideSet() map[*Node]bool {
+	out := map[*Node]bool{}
+	for _, n := range b.nodes {
+		if n.Kind == "file" && b.realRoot != "" && inside(b.realRoot, b.m.abs(n)) {
+			out[n] = true
+		}
+	}
+	return out
+}
+
+func (b *builder) liveNodes(kind string) []*Node {
+	var out []*Node
+	for _, n := range b.nodes {
+		if n.Kind == kind && b.m.nodes[b.m.abs(n)] == n {
+			out = append(out, n)
+		}
+	}
+	return out
+}
+
+// rootCandidates are the spellings a host may re-point its library at.
+func (b *builder) rootCandidates() []string {
+	R := b.rootRel
+	var dirs []string
+	for _, d := range []string{R, R, R + "/sub", R + "/sub", R + "/lib", R + "/sub/deep", "outside", "outside/sub", "cwd"} {
+		if b.exists(d) {
+			dirs = append(dirs, genBase+"/"+d)
+		}
+	}
+	dirs = append(dirs, b.look...)
+	var out []string
+	for _, d := range dirs {
+		out = append(out, toPlaceholder(d))
+		if b.pct("relroot", 25) {
+			out = append(out, strings.Join(relSpell(b.cwdReal, d), "/"))
+		}
+	}
+	for _, n := range b.liveNodes("link") {
+		if parentOf(b.m.abs(n)) == genBase {
+			out = append(out, toPlaceholder(b.m.abs(n)), toPlaceholder(b.m.abs(n)))
+		}
+	}
+	out = append(out, basePlaceholder, basePlaceholder+"/no-such-root")
+	var other []string
+	for _, o := range out {
+		if o != b.root {
+			other = append(other, o)
+		}
+	}
+	return other
+}
+
+// applyMutation mirrors an Op on the builder's model (the oracle does the
+// same on its own model and on the disk).
+func (b *builder) applyMutation(op Op) {
+	switch op.Entry {
+	case "setroot":
+		b.setRoot(op.Arg)
+		return
+	case "chdir":
+		b.cwdReal = genBase + "/" + op.Path
+	case "retarget":
+		if n := b.m.nodes[genBase+"/"+op.Path]; n != nil && n.Kind == "link" {
+			n.Target = op.Arg
+		}
+	case "replace":
+		if n := b.m.nodes[genBase+"/"+op.Path]; n != nil {
+			b.m.reid(n, op.Arg)
+		}
+	case "remove":
+		if n := b.m.nodes[genBase+"/"+op.Path]; n != nil {
+			b.m.remove(n)
+		}
+	case "create-file":
+		b.add(&Node{Path: op.Path, Kind: "file", ID: op.Arg})
+	case "create-link":
+		b.add(&Node{Path: op.Path, Kind: "link", Target: op.Arg})
+	}
+	b.refreshRoot()
+}
+
+func (b *builder) linkTarget(dir string) string {
+	if b.pct("tgt-rootcand", 35) {
+		// another directory a root could be: releases/v1 -> releases/v2
+		c := b.rootCandidates()
+		t := rapid.SampledFrom(c).Draw(b.t, "linkrootcand")
+		if isAbs(subst(t, genBase)) {
+			if b.pct("linkabs", 50) {
+				return t
+			}
+			return strings.Join(relSpell(dir, subst(t, genBase)), "/")
+		}
+	}
+	named := b.walk()
+	if b.pct("linkabs", 30) {
+		return toPlaceholder(named)
+	}
+	return strings.Join(relSpell(dir, named), "/")
+}
+
+func (b *builder) genMutation() (Op, bool) {
+	links := b.liveNodes("link")
+	var plain []*Node // files that define no function (see NOTES: their identity stays)
+	for _, n := range b.liveNodes("file") {
+		if len(n.Defs) == 0 {
+			plain = append(plain, n)
+		}
+	}
+	rootVia := func() []*Node { // links whose target decides what the configured root resolves to
+		var out []*Node
+		s := subst(b.root, genBase)
+		if b.mode != "rfs" {
+			return nil // an opened os.Root does not follow its name
+		}
+		now := b.m.resolve(b.cwdReal, s)
+		for _, n := range links {
+			old := n.Target
+			n.Target = "c20-no-such-target"
+			r := b.m.resolve(b.cwdReal, s)
+			n.Target = old
+			if r.Err != now.Err || r.Path != now.Path {
+				out = append(out, n)
+			}
+		}
+		return out
+	}
+	for try := 0; try < 4; try++ {
+		switch k := rapid.IntRange(0, 99).Draw(b.t, "mutkind"); {
+		case k < 30:
+			return Op{Entry: "setroot", Arg: rapid.SampledFrom(b.rootCandidates()).Draw(b.t, "newroot")}, true
+		case k < 55:
+			if len(links) == 0 {
+				continue
+			}
+			pool := links
+			if rv := rootVia(); len(rv) > 0 && b.pct("retarget-root", 70) {
+				pool = rv
+			}
+			n := rapid.SampledFrom(pool).Draw(b.t, "retargetlink")
+			return Op{Entry: "retarget", Path: n.Path, Arg: b.linkTarget(parentOf(b.m.abs(n)))}, true
+		case k < 68:
+			R := b.rootRel
+			var cwds []string
+			for _, d := range []string{"cwd", R, R + "/sub", R + "/lib", "outside", "cwd/sub"} {
+				if b.exists(d) && genBase+"/"+d != b.cwdReal {
+					cwds = append(cwds, d)
+				}
+			}
+			return Op{Entry: "chdir", Path: rapid.SampledFrom(cwds).Draw(b.t, "newcwd")}, true
+		case k < 78:
+			if len(plain) == 0 {
+				continue
+			}
+			n := rapid.SampledFrom(plain).Draw(b.t, "replacefile")
+			b.nextID++
+			return Op{Entry: "replace", Path: n.Path, Arg: fmt.Sprintf("F%d", b.nextID)}, true
+		case k < 86:
+			pool := append(append([]*Node{}, plain...), links...)
+			if len(pool) == 0 {
+				continue
+			}
+			return Op{Entry: "remove", Path: rapid.SampledFrom(pool).Draw(b.t, "removenode").Path}, true
+		default:
+			d := rapid.SampledFrom(b.realDirs()).Draw(b.t, "createdir")
+			var free []string
+			for _, nm := range append(append([]string{}, fileNames...), "d.lisp", "lnk", "l2") {
+				if kd, _ := b.m.lookup(d, nm); kd == "" {
+					free = append(free, nm)
+				}
+			}
+			if len(free) == 0 {
+				continue
+			}
+			nm := rapid.SampledFrom(free).Draw(b.t, "createname")
+			path := (d + "/" + nm)[len(genBase)+1:]
+			if k < 94 {
+				b.nextID++
+				return Op{Entry: "create-file", Path: path, Arg: fmt.Sprintf("F%d", b.nextID)}, true
+			}
+			return Op{Entry: "create-link", Path: path, Arg: b.linkTarget(d)}, true
+		}
+	}
+	return Op{}, false
+}
+
+// buildHistory: loads, then 1-3 times (a change of the configuration or of
+// the layout, then loads directed by the NEW state), all on one library value
+// and one runtime.
+func (b *builder) buildHistory() []Op {
+	ops := b.loadOps(rapid.IntRange(1, 2).Draw(b.t, "nprime"))
+	nseg := rapid.SampledFrom([]int{1, 1, 2, 2, 3}).Draw(b.t, "nseg")
+	for s := 0; s < nseg; s++ {
+		before := b.insideSet()
+		nm := rapid.SampledFrom([]int{1, 1, 1, 2}).Draw(b.t, "nmut")
+		for i := 0; i < nm; i++ {
+			if op, ok := b.genMutation(); ok {
+				b.applyMutation(op)
+				ops = append(ops, op)
+			}
+		}
+		after := b.insideSet()
+		b.flipped = nil
+		for _, n := range b.liveNodes("file") {
+			if before[n] != after[n] {
+				b.flipped = append(b.flipped, n)
+			}
+		}
+		ops = append(ops, b.loadOps(rapid.IntRange(1, 3).Draw(b.t, "nafter"))...)
+	}
+	return ops
+}
+
+func genCase(mode string) *rapid.Generator[Case] { return genCaseH(mode, false) }
+
+func genCaseH(mode string, history bool) *rapid.Generator[Case] {
 	return rapid.Custom(func(t *rapid.T) Case {
-		b := &builder{t: t, mode: mode}
+		b := &builder{t: t, mode: mode, history: history}
 		b.m = &model{base: genBase, nodes: map[string]*Node{}, kids: map[string][]string{}, files: map[string]*Node{}}
 		b.buildTree()
 		b.buildLinks()
 		b.chooseRootAndCwd()
 		b.buildLoads()
-		ops := b.buildOps()
-		c := Case{Mode: mode, Ops: ops}
+		c := Case{Mode: mode}
+		// the sandbox as it is BEFORE the first operation
 		c.SB.Root = b.root
 		c.SB.Cwd = b.cwdReal[len(genBase)+1:]
 		for _, n := range b.nodes {
 			c.SB.Nodes = append(c.SB.Nodes, *n)
+		}
+		if history {
+			c.Ops = b.buildHistory()
+		} else {
+			c.Ops = b.buildOps()
+		}
+		if mode == "cli" {
+			c.Cmd = rapid.SampledFrom([]string{"", "", "repl", "debug"}).Draw(t, "clicmd")
 		}
 		return c
 	})
